@@ -53,6 +53,7 @@ int main() {
   { using EQ = eval::Equation_AST_Node<eval::Noop_Tracer>; SZ("Equation_Node", EQ) OFF("EQ_oper", EQ, m_oper) OFF("EQ_loc", EQ, m_loc) OFF("EQ_clone_loc", EQ, m_clone_loc) }
   SZ("Thread_Storage", detail::threading::Thread_Storage<detail::Stack_Holder>)
   { using PFB = dispatch::Proxy_Function_Base; SZ("PFB", PFB) OFF("PFB_types", PFB, m_types) OFF("PFB_arity", PFB, m_arity) OFF("PFB_has_arith", PFB, m_has_arithmetic_param) }
+  SZ("Inline_Map_Node", eval::Inline_Map_AST_Node<eval::Noop_Tracer>) SZ("Inline_Array_Node", eval::Inline_Array_AST_Node<eval::Noop_Tracer>) SZ("Assign_Decl_Node", eval::Assign_Decl_AST_Node<eval::Noop_Tracer>) SZ("Constant_Node", eval::Constant_AST_Node<eval::Noop_Tracer>)
   SZ("File_Position", File_Position) SZ("Parse_Location", Parse_Location)
   SZ("std_string", std::string) SZ("std_vector", std::vector<int>) SZ("std_shared_ptr", std::shared_ptr<int>)
   static_assert(sizeof(std::string) == 32 && sizeof(std::vector<int>) == 24 && sizeof(std::shared_ptr<int>) == 16, "libstdc++ layouts the C models rely on");
